@@ -38,6 +38,12 @@ CHECKS = {
         text='All words of 1..3 segments (thorough: 4, and 5 under the self/mutual/regex environments) over {a - $A ${A} $AB ${AB} $U ${U} $? $$}, unquoted / double-quoted / single-quoted, under nine variable environments (plain, blank, empty, reference to another variable, self-reference in both spellings, mutual reference, $1, regex-special) installed exported and shell-local, are planned by the real code; the argv must equal a reference single-pass expansion (double-quoted: exactly one argument; single-quoted: literal) and every case must terminate. Words of <= 2 segments are also executed by the real binary.',
         note='Names and values are the bound; word splitting of unquoted results is accepted either way (statement silent).',
         ref='DESIGN.md §4 C10'),
+    'C12': dict(
+        engine='E1 bounded-exhaustive input sweep (in-process plan) + real binary',
+        technique='bounded-exhaustive enumeration of all well-formed brace terms, ranges, tilde forms and directory populations x patterns, planned by the real code against reference expanders; conformance replay through the real binary',
+        text='Every well-formed brace term over {a b { } ,} up to length 8 (thorough 10; nesting <= 3, <= 4 alternatives, <= 3 groups) in four position templates (also next to quoted arguments), all pairs of short terms, all ranges {m..n[..s]} over -3..3 (-5..5) x six steps with and without surrounding text, tilde forms, and every population subset of {a ab b .h "a b" d/ d/e} x ten patterns are planned by the real code and compared with reference brace / range / glob expanders (order, cartesian product, empty alternatives, inclusive sequences, sorted non-hidden matches or the pattern itself, quoted words untouched, words with blanks stay one argument). A subset is executed by the real binary.',
+        note='Alphabet, length and population universe are the bound; empty words may be kept or dropped; ~name and patterns ending in / are outside the statement.',
+        ref='DESIGN.md §4 C12'),
     'C13': dict(
         engine='E1 bounded-exhaustive input sweep (in-process plan, substitutions executed) + real binary',
         technique='exhaustive enumeration of payload x delivery x quoting x position combinations, planned and executed by the real code; oracle = template structure with the payload as argument text only',
